@@ -104,6 +104,16 @@ impl ContinuousOutput {
         
         let tol = 1e-12;
         
+        // A segment that really contains t wins over one that merely lies within the tolerance
+        // (steps shorter than the tolerance would otherwise all be answered by the first of them)
+        for seg in &self.segs {
+            let left = seg.xold.min(seg.xold + seg.h);
+            let right = seg.xold.max(seg.xold + seg.h);
+            if t >= left && t <= right {
+                return Some(seg);
+            }
+        }
+
         // Strict interpolation - only return segment if t is within it
         for seg in &self.segs {
             let left = seg.xold.min(seg.xold + seg.h);
